@@ -23,6 +23,9 @@ class FuncInfo:
         self.name = node.name
         self.decorators = [dotted(d.func if isinstance(d, ast.Call) else d) for d in node.decorator_list]
 
+    def decorator_list_nontrivial(self):
+        return any(d not in ("staticmethod",) for d in self.decorators)
+
     @property
     def is_property(self):
         return any(d in ("property", "functools.cached_property") for d in self.decorators)
